@@ -232,7 +232,7 @@ def r1(run, ctx):
         if opt not in pd and opt not in cd:
             run.fail('R1', pf, pf.node, 'documented option %s has neither a parser nor a '
                      'constructor default' % opt, construct='no default for %s' % opt)
-    run.count('R1', n, 18, 'options with a documented default')
+    run.count('R1', n, 12, 'options with a documented default')
     # parser defaults vs constructor defaults for every shared key
     for k in sorted(set(pd) & set(cd)):
         a, b = code_value(pd[k]), code_value(cd[k])
@@ -255,7 +255,7 @@ def r2(run, ctx):
     run.rule('R2', 'typing loop of get_config')
     doc = doc_defaults(ctx)
     types, f = option_types(ctx)
-    run.count('R2', len(types), 25, 'typed option keys')
+    run.count('R2', len(types), 15, 'typed option keys')
     for b in DOC_BOOLS:
         info = types.get(b)
         if info is None:
@@ -510,7 +510,7 @@ def r5(run, ctx):
                 if isinstance(it, ast.Call) and dotted(it.func) == 'set':
                     run.fail('R5', g, node.ast, 'iteration over a set while building the '
                              'configuration (order not deterministic)')
-    run.count('R5', n, 5, 'functions in the closure of get_config')
+    run.count('R5', n, 3, 'functions in the closure of get_config')
     t = norm_text(f.node)
     for lst in ('watchers', 'plugins', 'sockets'):
         run.check('R5', ('%s.sort(key=name)' % lst) in t and "name = operator.itemgetter('name')" in t,
